@@ -626,9 +626,10 @@ pub fn run(ctx: &mut Ctx) {
         }
     }
     // shapes far from the bundled database: labels with hundreds of signatures (positions beyond 255),
-    // and (thorough) more labels than 16 bits can index — the answer must still be the first best entry
+    // (thorough: 700 labels, 600 signatures per label) — the answer must still be the first best entry.
+    // (More labels than 16 bits can index were tried: 2.5 MB case lines, minutes per line in the model driver — dropped.)
     {
-        let shapes: Vec<(usize, usize)> = if ctx.n(0, 1) == 1 { vec![(1, 300), (3, 270), (70_000, 1)] } else { vec![(1, 300), (3, 270)] };
+        let shapes: Vec<(usize, usize)> = if ctx.n(0, 1) == 1 { vec![(1, 300), (3, 270), (700, 2), (2, 600)] } else { vec![(1, 300), (3, 270)] };
         for (nl, ns) in shapes {
             let db = direct_db(
                 gen_tcp_entries_shape(&mut r, nl, 0, Some(ns)),
